@@ -45,6 +45,8 @@ mod cffsynth;
 mod extra;
 #[path = "../c03_movekern.rs"]
 mod movekern;
+#[path = "../c03_prog.rs"]
+mod prog;
 
 extern "C" {
     fn FT_MulFix(a: c_long, b: c_long) -> c_long;
@@ -572,12 +574,14 @@ fn run(cfg: &Config, s: &mut Session) {
         Ok("cffsynth") => return cffsynth::run(cfg, s),
         Ok("extra") => return extra::run(cfg, s),
         Ok("movekern") => return movekern::run(cfg, s),
+        Ok("prog") => return prog::run(cfg, s),
         _ => {}
     }
     kernels(cfg, s);
     hypot_oracle(cfg, s);
     bytecode::run(cfg, s);
     movekern::run(cfg, s);
+    prog::run(cfg, s);
     synth::run(cfg, s);
     ttfuzz::run(cfg, s);
     ttedge::run(cfg, s);
